@@ -4,6 +4,8 @@ import (
 	"context"
 	"fmt"
 	"net"
+
+	"github.com/wi1dcard/fingerproxy/pkg/vhook"
 )
 
 func NewChannelListener(ctx context.Context) *ChannelListener {
@@ -30,6 +32,7 @@ func (ln *ChannelListener) Accept() (net.Conn, error) {
 		return nil, ln.context.Err()
 	case conn, ok := <-ln.channel:
 		if ok {
+			vhook.Point("hack.ChannelListener.accepted", conn)
 			return conn, nil
 		} else {
 			return nil, fmt.Errorf("channel listener: internal channel closed")
